@@ -138,17 +138,26 @@ class Dialect:
 def confirm_lookup_model(program: Program):
     """expr_to_sql: replacements (exact, lower, upper) -> formatters (exact, lower, upper) -> inline n-ary -> OP(args)"""
     f = program.method("sql_model", "SQLModel", "expr_to_sql", inherited=False)
-    txt = unparse(f.node)
-    needles = ["op in self.op_replacements.keys()", "op.lower() in self.op_replacements.keys()",
-               "op.upper() in self.op_replacements.keys()", "op in self.sql_formatters.keys()",
-               "op.lower() in self.sql_formatters.keys()", "op.upper() in self.sql_formatters.keys()",
-               "expression.inline", "op.upper() + '(' + ', '.join(subs) + ')'"]
-    pos = -1
+    from . import pat
+    needles = ["_OP in self.op_replacements.keys()", "_OP.lower() in self.op_replacements.keys()",
+               "_OP.upper() in self.op_replacements.keys()", "_OP in self.sql_formatters.keys()",
+               "_OP.lower() in self.sql_formatters.keys()", "_OP.upper() in self.sql_formatters.keys()",
+               "expression.inline", "_OP.upper() + '(' + ', '.join(_SUBS) + ')'"]
+    pos = (-1, -1)
+    opvar = None
     for n in needles:
-        p = txt.find(n)
-        if p < 0 or p < pos:
+        hits = pat.find(n, f.node)
+        if opvar is not None:
+            hits = [(nd, e) for (nd, e) in hits if e.get("_OP", opvar) == opvar]
+        hits = sorted(hits, key=lambda h: (h[0].lineno, h[0].col_offset))
+        hits = [h for h in hits if (h[0].lineno, h[0].col_offset) >= pos]
+        if not hits:
             raise AnalysisError(f"expr_to_sql no longer matches the modelled lookup order (at `{n}`)")
-        pos = p
+        nd, e = hits[0]
+        opvar = e.get("_OP", opvar)
+        pos = (nd.lineno, nd.col_offset)
+    if opvar is None or not pat.find(f"{opvar} = expression.op", f.node):
+        raise AnalysisError("expr_to_sql: the looked-up name is no longer bound from expression.op")
     init = program.method("sql_model", "SQLModel", "__init__", inherited=False)
     t2 = unparse(init.node)
     if "for k in db_expr_formatters.keys()" not in t2 or "if k not in self.sql_formatters.keys()" not in t2:
